@@ -131,8 +131,10 @@ def pure_helpers(rep):
         if node is None:
             common.structural(rep, 'C06/%s/exists' % q, q, False, {}, undecided_if_false=True)
             continue
+        # (appending to containers that this activation built - directly or reached through them - is no tree write)
+        own = effects.derived_fresh_locals(node)
         ws = [w.as_dict() for w in effects.writes_of(q, node)
-              if not (w.kind == 'mutator-call' and w.base in ('ret', 'result', 'types'))]
+              if not (w.kind == 'mutator-call' and w.base in own)]
         common.structural(rep, 'C06/%s/query helper: no store, no mutating call (frame)' % q, q, not ws, {'writes': ws})
 
 
